@@ -377,6 +377,77 @@ func wfaultSweep(p *wfaultParams, st *Stats, run int, ti int, cfg Config, r *Rng
 	}
 }
 
+// ---- length sweep ------------------------------------------------------------------------------
+//
+// Outputs of EVERY length from 9 bytes up to 1 300 (thorough: 9 000, i.e. past two buffer
+// sizes), as one paragraph and as a paragraph followed by a thematic break (so that the last
+// piece written is small), each with the fault plans whose outcome depends on where the output
+// ends: whatever switches buffers, paths or strategies at some output size - not only at
+// goldmark's 4096 - has one length at which the switch coincides with the end of the output.
+
+const lengthSweepChunks = 16
+
+func wfaultLengthSweep(p *wfaultParams, st *Stats, run int, chunk int) {
+	maxLen := 1300
+	if p.tier == "thorough" {
+		maxLen = 9000
+	}
+	cfg := Config{}
+	for L := 9 + chunk; L <= maxLen; L += lengthSweepChunks {
+		if stopAtFirst && len(st.Violations) > 0 || hung {
+			return
+		}
+		for variant := 0; variant < 2; variant++ {
+			doc := []byte(strings.Repeat("x", L-8) + "\n")
+			if variant == 1 {
+				if L < 16 {
+					continue
+				}
+				doc = []byte(strings.Repeat("x", L-8-5) + "\n\n---\n") // ... + "<hr>\n"
+			}
+			docs := [][]byte{doc}
+			for _, stack := range []string{"W1", "W1s", "W2:64", "W3"} {
+				base := Op{Kind: "Convert", Doc: 0, Stack: stack}
+				if (L+variant)%3 == 0 {
+					base.Kind = "ParseRender"
+				}
+				R, ok := wfaultRef(cfg, docs, base)
+				if !ok {
+					st.Inc("control_failed")
+					continue
+				}
+				st.Inc("length_sweep_groups")
+				plans := []*FaultPlan{nil, {Kind: "always"}, {Kind: "short+err", K: 0}, {Kind: "short+err", K: len(R) / 2}, {Kind: "short+err", K: len(R) - 1},
+					{Kind: "zero+err", J: 0}, {Kind: "full+err", J: 0}, {Kind: "transient", J: 0, Shape: "zero"}}
+				for _, f := range plans {
+					op := base
+					op.Fault = f
+					v := wfaultOne(cfg, docs, op, R, st)
+					if f != nil {
+						st.Inc("probe.length_sweep_faulted")
+					}
+					if v != nil && p.ctl != nil {
+						p.ctl.capture(&RunSpec{Property: p.prop, Engine: "wfault", VerifSeed: p.verifSeed, Run: run, Cfg: cfg, Docs: docs, Clients: [][]Op{{op}}}, v)
+						return
+					}
+					if v != nil {
+						st.Inc("violations_seen")
+						if len(st.Violations) < p.maxVio {
+							sp := &RunSpec{Property: p.prop, Engine: "wfault", VerifSeed: p.verifSeed, Run: run,
+								RunSeed: fmt.Sprintf("%#x", runSeed(p.verifSeed, "wfault", run)), Cfg: cfg, Docs: docs, Clients: [][]Op{{op}}}
+							reportViolation(sp, v, st, p.replayDir, !p.noMinimise)
+						}
+						return
+					}
+					if hung {
+						return
+					}
+				}
+			}
+		}
+	}
+}
+
 // nearBoundary keeps the interesting offsets when striding a large output: both ends and
 // +-8 around every multiple of goldmark's internal buffer size and of the W2 sizes.
 func nearBoundary(k, L int) bool {
@@ -461,6 +532,14 @@ func wfaultWorker(p *wfaultParams, st *Stats) {
 		}
 		wfaultSweep(p, st, i, ti, cfg, r)
 	}
+	// length sweep: item numbers after the boundary sweep
+	for ci := 0; ci < lengthSweepChunks; ci++ {
+		i := len(items) + len(sweepTemplates) + ci
+		if i%p.of != p.shard || p.ctl != nil && (i < p.ctl.from || i > p.ctl.until) {
+			continue
+		}
+		wfaultLengthSweep(p, st, i, ci)
+	}
 	for i, it := range items {
 		if i%p.of != p.shard {
 			continue
@@ -496,8 +575,12 @@ func wfaultWorker(p *wfaultParams, st *Stats) {
 				paths = append(paths, "RenderChild")
 			}
 			stacks := []string{"W1", fmt.Sprintf("W2:%d", pick(r, w2Sizes)), "W3", pick(r, []string{"W1f", "W1s", "W1b", fmt.Sprintf("W2p:%d", pick(r, w2Sizes))})}
+			if cfg.ErrRenderer {
+				// destinations that do not remember errors: judged where goldmark can see the failure
+				stacks = append(stacks, pick(r.Split("non-sticky"), []string{"W4", "W4", "W5:16", "W5:64", "W5d:16", "W5p:16", "W5p:64"}))
+			}
 			if p.tier == "thorough" {
-				stacks = []string{"W1", "W2:16", "W2:17", "W2:64", "W2:4096", "W2:65536", "W3", "W1f", "W1s", "W1b", "W2p:17", "W2p:64", "W2p:4096"}
+				stacks = []string{"W1", "W2:16", "W2:17", "W2:64", "W2:4096", "W2:65536", "W3", "W1f", "W1s", "W1b", "W2p:17", "W2p:64", "W2p:4096", "W4", "W5:16", "W5:4096", "W5d:64", "W5p:16", "W5p:4096"}
 			}
 			exPi, exSi := r.Intn(len(paths)), r.Intn(len(stacks))
 			for pi, kind := range paths {
